@@ -4,6 +4,7 @@
 -/
 import BurrowVerif.Proofs.Accept
 import BurrowVerif.Proofs.Notifier
+import BurrowVerif.Model.ZkReader
 
 namespace Burrow.Props.C10
 open Burrow Burrow.Storage Burrow.Spec.Storage
@@ -60,5 +61,71 @@ private def cfg : Config := { intervals := 2, expireGroup := 100, minDistance :=
 -- allowlisted but also denylisted: rejected (the `||` mutant would accept)
 example : accept cfg { allowMatch := true, denyMatch := true } = false := by decide
 example : accept cfg { allowMatch := true, denyMatch := false } = true := by decide
+
+/-! ### the Zookeeper offsets reader -/
+
+section ZkReader
+open Burrow.ZkReader
+
+/-- what one (re)read of an offset node forwards concerns only that node's group, and only if the group
+    passes the lists -/
+theorem zk_forwardOne_accepted (e : Entry) : ∀ fw ∈ forwardOne e, e.acc = true ∧ fw.group = e.group := by
+  intro fw h
+  unfold forwardOne at h
+  split at h
+  · rename_i hacc
+    split at h
+    · simp only [List.mem_cons, List.mem_nil_iff, or_false] at h
+      rcases h with rfl | rfl <;> exact ⟨hacc, rfl⟩
+    · simp at h
+  · simp at h
+
+/-- **the Zookeeper reader forwards no offset and no ownership update for a rejected group** — at
+    Start, on every later change of the tree, and when every watch is re-made after a session expiry:
+    for every tree, every op and every verdict function of the module's lists -/
+theorem zk_reader_forwards_only_accepted (accOf : String → Bool) (s : ZkReader.St) (op : ZkReader.Op)
+    (hs : ∀ e ∈ s.tree, e.acc = accOf e.group) (hop : ∀ e : Entry, op = .set e → e.acc = accOf e.group) :
+    (∀ fw ∈ (ZkReader.step s op).2, accOf fw.group = true) ∧
+    (∀ e ∈ (ZkReader.step s op).1.tree, e.acc = accOf e.group) := by
+  have hwalk : ∀ fw ∈ walk s.tree, accOf fw.group = true := by
+    intro fw h
+    simp only [walk, List.mem_flatMap] at h
+    obtain ⟨e, he, hfw⟩ := h
+    obtain ⟨h1, h2⟩ := zk_forwardOne_accepted e fw hfw
+    rw [h2, ← hs e he]; exact h1
+  cases op with
+  | set e =>
+    have hacc := hop e rfl
+    constructor
+    · intro fw h
+      simp only [ZkReader.step] at h
+      split at h
+      · obtain ⟨h1, h2⟩ := zk_forwardOne_accepted e fw h
+        rw [h2, ← hacc]; exact h1
+      · simp at h
+    · intro x hx
+      simp only [ZkReader.step, upsert, List.mem_cons, List.mem_filter] at hx
+      rcases hx with rfl | ⟨hx, _⟩
+      · exact hacc
+      · exact hs x hx
+  | start => exact ⟨by simpa [ZkReader.step] using hwalk, by simpa [ZkReader.step] using hs⟩
+  | expire =>
+    constructor
+    · intro fw h
+      simp only [ZkReader.step] at h
+      split at h
+      · exact hwalk fw h
+      · simp at h
+    · simpa [ZkReader.step] using hs
+
+/-- … and it does forward every commit of an accepted group whose offset node holds a number, with the
+    node's modification id as the order and its owner alongside -/
+theorem zk_reader_forwards_accepted_commits (s : ZkReader.St) (e : Entry) (v : Int) (hst : s.started = true)
+    (hacc : e.acc = true) (hp : e.parsed = some v) :
+    (ZkReader.step s (.set e)).2 =
+      [.offset e.group e.topic e.partition v e.zxid (e.zxid * 1000), .owner e.group e.topic e.partition e.owner] := by
+  simp [ZkReader.step, hst, forwardOne, hacc, hp]
+
+end ZkReader
 
 end Burrow.Props.C10
